@@ -63,7 +63,7 @@ func plan(thorough bool) tierPlan {
 				{"x_w2_fork.cfg", 3, 8 * time.Minute},
 			},
 			graphs: []graphRun{
-				{"g_w2_small.cfg", 3, 1200, 40, 8 * time.Minute},
+				{"g_w2_small.cfg", 3, 1200, 200, 8 * time.Minute},
 			},
 			sims: []simRun{
 				{"s_w3.cfg", 2, 18, 55, 8 * time.Minute},
@@ -74,22 +74,22 @@ func plan(thorough bool) tierPlan {
 	}
 	return tierPlan{
 		exhaustive: []exhaustiveRun{
-			{"x_w3_fork.cfg", 5, 40 * time.Minute},
-			{"x_w3_params.cfg", 5, 40 * time.Minute},
-			{"x_w3_times.cfg", 4, 40 * time.Minute},
-			{"x_w4_linear.cfg", 3, 40 * time.Minute},
-			{"x_k2.cfg", 3, 40 * time.Minute},
-			{"x_w2_fork.cfg", 3, 40 * time.Minute},
-			{"x_w3_linear.cfg", 2, 40 * time.Minute},
+			{"x_w3_fork.cfg", 5, 60 * time.Minute},
+			{"x_w3_params.cfg", 5, 60 * time.Minute},
+			{"x_w3_times.cfg", 4, 60 * time.Minute},
+			{"x_w4_linear.cfg", 3, 60 * time.Minute},
+			{"x_k2.cfg", 3, 60 * time.Minute},
+			{"x_w2_fork.cfg", 3, 60 * time.Minute},
+			{"x_w3_linear.cfg", 2, 60 * time.Minute},
 		},
 		graphs: []graphRun{
-			{"g_w2_small.cfg", 3, 0, 40, 40 * time.Minute},
-			{"g_w2_fork.cfg", 3, 6000, 40, 40 * time.Minute},
-			{"g_w3_small.cfg", 3, 5000, 50, 40 * time.Minute},
+			{"g_w2_small.cfg", 3, 0, 200, 60 * time.Minute},
+			{"g_w2_fork.cfg", 3, 4000, 200, 60 * time.Minute},
+			{"g_w3_small.cfg", 3, 4000, 200, 60 * time.Minute},
 		},
 		sims: []simRun{
-			{"s_w3.cfg", 3, 170, 55, 40 * time.Minute},
-			{"s_w4.cfg", 3, 110, 65, 40 * time.Minute},
+			{"s_w3.cfg", 3, 170, 55, 60 * time.Minute},
+			{"s_w4.cfg", 3, 110, 65, 60 * time.Minute},
 		},
 		budget:   12,
 		coverage: true,
@@ -229,6 +229,8 @@ func mkReplay(b behaviour, seed int64, setup []string) replayFile {
 // each and returns how many of them reported a divergence.  Nothing of it goes
 // into the verdict or the evidence counters.
 func replayCorrupted(ctx *vrun.Ctx, bs []behaviour) (int, error) {
+	scratch, cleanup := chainScratch(ctx)
+	defer cleanup()
 	var mu sync.Mutex
 	var firstErr error
 	found := 0
@@ -239,7 +241,7 @@ func replayCorrupted(ctx *vrun.Ctx, bs []behaviour) (int, error) {
 	}
 	defer func() { ctx.Workers = saved }()
 	ctx.Parallel(len(bs), func(i int) {
-		r := &replayer{mc: bs[i].mc, rng: rand.New(rand.NewSource(baseSeed + int64(i)*7919)), scratch: ctx.Scratch, corrupt: true}
+		r := &replayer{mc: bs[i].mc, rng: rand.New(rand.NewSource(baseSeed + int64(i)*7919)), scratch: scratch, corrupt: true}
 		err := r.run(bs[i].states)
 		mu.Lock()
 		defer mu.Unlock()
@@ -253,10 +255,24 @@ func replayCorrupted(ctx *vrun.Ctx, bs []behaviour) (int, error) {
 	return found, firstErr
 }
 
+// chainScratch returns the directory the databases of the replayed chains are
+// created in: a private directory on tmpfs when there is one (closing an
+// ffldb database syncs, which is what dominates a replay on a disk).
+func chainScratch(ctx *vrun.Ctx) (string, func()) {
+	if st, err := os.Stat("/dev/shm"); err == nil && st.IsDir() {
+		if d, err := os.MkdirTemp("/dev/shm", "verif-vb-"); err == nil {
+			return d, func() { os.RemoveAll(d) }
+		}
+	}
+	return ctx.Scratch, func() {}
+}
+
 // runReplays replays the behaviours in parallel, reports divergences and
 // folds the counters into the evidence.
 func runReplays(ctx *vrun.Ctx, bs []behaviour, label string) error {
 	t0 := time.Now()
+	scratch, cleanup := chainScratch(ctx)
+	defer cleanup()
 	var mu sync.Mutex
 	var firstErr error
 	baseSeed := ctx.Rand("replay:" + label).Int63()
@@ -275,7 +291,7 @@ func runReplays(ctx *vrun.Ctx, bs []behaviour, label string) error {
 			return
 		}
 		seed := baseSeed + int64(i)*7919
-		r := &replayer{mc: bs[i].mc, rng: rand.New(rand.NewSource(seed)), scratch: ctx.Scratch}
+		r := &replayer{mc: bs[i].mc, rng: rand.New(rand.NewSource(seed)), scratch: scratch}
 		err := r.run(bs[i].states)
 		mu.Lock()
 		defer mu.Unlock()
